@@ -46,6 +46,35 @@ mod verif {
         let is_dir: bool = kani::any();
         assert!(pred(name, is_dir) == (expect && !is_dir), "C20.filter: an entry is selected for deletion iff it is not a directory and its extension is exactly `mmm`");
     }
+    // cross-check of the std contract the Verus unit c20_clean_v ASSUMES for Path::extension (`ext_spec`), against the real std:
+    // independent of mscript's code
+    #[kani::proof]
+    #[kani::unwind(UNWIND)]
+    fn c20_std_extension() {
+        const N: usize = NBYTES;
+        let len: usize = kani::any();
+        kani::assume(len >= 1 && len <= N);
+        let mut buf = [0u8; N];
+        let mut i = 0;
+        while i < N { let c: u8 = kani::any(); kani::assume(ok_byte(c)); buf[i] = c; i += 1; }
+        let bytes = &buf[..len];
+        let name = OsStr::from_bytes(bytes);
+        let mut last_dot: Option<usize> = None;
+        let mut j = 0;
+        while j < len { if bytes[j] == b'.' { last_dot = Some(j); } j += 1; }
+        let dotdot = len == 2 && bytes[0] == b'.' && bytes[1] == b'.';
+        let real = Path::new(name).extension();
+        match last_dot {
+            Some(d) if d > 0 && !dotdot => {
+                assert!(real.is_some(), "C20.std.extension: a dot that is not the first byte gives an extension");
+                let e = real.unwrap().as_bytes();
+                assert!(e.len() == len - d - 1, "C20.std.extension: the extension is what follows the last dot (length)");
+                let mut q = 0;
+                while q < e.len() { assert!(e[q] == bytes[d + 1 + q], "C20.std.extension: the extension is what follows the last dot (bytes)"); q += 1; }
+            }
+            _ => assert!(real.is_none(), "C20.std.extension: no extension without a dot, with only a leading dot, or for `..`"),
+        }
+    }
 }
 """
 
@@ -93,22 +122,7 @@ class CleanUnit:
         scan_ok = (all_t.count("remove_file") == 1 and " ".join(then).count("remove_file") == 1
                    and "remove_dir" not in all_t and "rename" not in all_t and "read_dir" in all_t
                    and re.search(r"remove_file \( %s \. path \( \) \)" % re.escape(var), " ".join(then)) is not None)
-        # ---- the caller: `Commands::Clean { path } => clean_command(&path)` in main -- DIR is the directory the user named, nothing derived from it
-        from vlib.extract import extract_match_arm
-        try:
-            fm = src.fn(MAIN, "main")
-            arm = extract_match_arm(fm["body"], "Commands :: Clean { path }")
-            arm_t = " ".join(arm["body"])
-        except Exception as e:
-            raise Undecided(f"main: arm `Commands::Clean {{ path }}` not found: {e}")
-        calls = re.findall(r"(\w+) \(", arm_t)
-        if "clean_command ( & path )" not in arm_t or any(c not in ("clean_command", "Ok", "Some") for c in calls):
-            raise Undecided("main: the Clean arm no longer hands the user's path straight to clean_command (`clean_command(&path)`): what directory is cleaned is outside the extracted predicate")
-        # ---- the argument itself: clap must hand `path` over as the text the user typed (a value_parser could rewrite it)
-        cli_t = " ".join(src.toks("src/cli.rs"))
-        m = re.search(r"Clean \{ (.*?) path : (\w+) ,? \}", cli_t)
-        if not m or m.group(2) != "String" or "value_parser" in m.group(1) or "value_delimiter" in m.group(1):
-            raise Undecided("cli.rs: the `path` argument of `clean` is no longer a plain String taken as typed (a value parser may rewrite it): what directory is cleaned is outside the extracted predicate")
+        # (the Clean arm of main and the clap attribute of `path` are obligations C20.main.dir / C20.cli.as-typed of unit c20_clean_v)
         # ---- predicate: statements of the loop body in front of the `if` + its condition; `VAR.file_name()` -> the parameter
         log = []
         prefix = Rule("Kt", f"let {var} = {var} ? ;", "", why="unwrapping of the directory entry dropped (the predicate takes its name)").apply(list(prefix), log)
@@ -117,11 +131,14 @@ class CleanUnit:
         for form in (f"{var} . file_type ( ) ? . is_dir ( )", f"{var} . path ( ) . is_dir ( )", f"{var} . metadata ( ) ? . is_dir ( )"):
             pre2 = Rule("Kt", form, "verif_is_dir", why="whether the directory entry is a directory -> parameter").apply(pre2, log)
             cond2 = Rule("Kt", form, "verif_is_dir", why="whether the directory entry is a directory -> parameter").apply(cond2, log)
+        pred_note = None
         if var in cond2 or var in pre2 or "remove_file" in " ".join(pre2):
-            raise Undecided("clean_command: the selection uses the directory entry beyond file_name(); predicate not extractable")
-        if "verif_entry_name" not in pre2 + cond2:
-            raise Undecided("clean_command: the selection does not look at the entry's file name; predicate not extractable")
+            pred_note = "clean_command: the selection uses the directory entry beyond file_name() / is_dir(): the bounded cross-check of the predicate is skipped (unit c20_clean_v decides)"
+        elif "verif_entry_name" not in pre2 + cond2:
+            pred_note = "clean_command: the selection does not look at the entry's file name: the bounded cross-check of the predicate is skipped (unit c20_clean_v decides)"
         cond2 = pre2 + cond2
+        if pred_note:
+            cond2 = ["false"]
         thorough = tier == "thorough"
         nbytes = int(os.environ.get("VERIF_C20_NBYTES", "0")) or (6 if thorough else 5)
         alphabet = "c == b'a' || c == b'm' || c == b'M' || c == b'.' || c == b'~'" + (" || c == b' ' || c == 0xC3 || c == 0xA9" if thorough else "")
@@ -136,7 +153,9 @@ class CleanUnit:
         o = Obl(f"C20.filter[{bound}]", ["C20"], fn="c20_filter", engine="kani/cbmc", bounded=bound,
                 desc="the extracted selection condition holds exactly for entries that are not directories and whose name has the extension `mmm` (last dot not first byte, exactly mmm after it)")
         r = per.get("c20_filter")
-        if r is None or r["status"] is None or r["oom"] or timed_out:
+        if pred_note:
+            res.samples.append("NOT RUN: " + pred_note)
+        elif r is None or r["status"] is None or r["oom"] or timed_out:
             o.status = "undecided"; o.detail = "no verdict from kani: " + raw[-1500:]
         else:
             named, panics, ign, other = K.classify(r["failed"])
@@ -147,12 +166,27 @@ class CleanUnit:
                 o.status = "failed"; o.detail = "\n".join(f"{d} @ {l}" for d, l in named + panics)
             else:
                 o.status = "discharged"
+        o2 = Obl(f"C20.std.extension[{bound}]", ["C20"], fn="c20_std_extension", engine="kani/cbmc", bounded=bound,
+                 desc="cross-check of the std contract unit c20_clean_v assumes: the real std::path::Path::extension of a one-component name is what follows the last dot; none without a dot, with only a leading dot, or for `..`")
+        r2 = per.get("c20_std_extension")
+        if r2 is None or r2["status"] is None or r2["oom"] or timed_out:
+            o2.status = "undecided"; o2.detail = "no verdict from kani: " + raw[-1500:]
+        else:
+            named2, panics2, ign2, other2 = K.classify(r2["failed"])
+            o2.time_s = r2["time"]
+            if r2["unwind"] or r2["unsupported"] or other2:
+                o2.status = "undecided"; o2.detail = "unwinding/unsupported/unclassified: " + repr(r2["failed"][:3])
+            elif named2 or panics2:
+                # the assumed std contract is wrong: that is a defect of the machinery's trusted base, not of mscript -> undecided, never an alarm
+                o2.status = "undecided"; o2.detail = "the ASSUMED contract of Path::extension disagrees with the real std: " + "; ".join(d for d, l in named2 + panics2)
+            else:
+                o2.status = "discharged"
         s = Obl("C20.frame.scan", ["C20"], fn=None, engine="scan", bounded="syntactic scan (assumption, not proof)",
                 desc="remove_file is called once, on the current entry, only under the extracted condition; loop over read_dir(DIR); no directory removal")
         s.status = "discharged" if scan_ok else "failed"
         if not scan_ok:
             s.detail = "loop frame of clean_command changed: remove_file/remove_dir/rename usage no longer matches the scanned shape"
-        res.obls = [o, s]
+        res.obls = ([] if pred_note else [o]) + [o2, s]
         return res
 
     def witness(self, repo, o, res):
@@ -172,3 +206,283 @@ class CleanUnit:
 
 
 UNITS = [CleanUnit()]
+
+
+# =====================================================================================================================
+# V-t: the WHOLE of clean_command under contract, for every directory listing and every file name (unbounded), over the documented
+# contracts of std::fs / std::path.  The bounded Kani harness above stays as a cross-check of the one std contract that carries the
+# meaning of "extension" (Path::extension), against the real std.
+
+SPEC_V = r"""
+use vstd::prelude::*;
+verus! {
+pub struct VErr { pub id: int }
+#[verifier::external_body] pub struct VString { x: usize }
+pub uninterp spec fn text_of(s: &VString) -> Seq<char>;
+pub uninterp spec fn replaced(s: Seq<char>) -> Seq<char>;
+impl VString {
+    // text transformations a change may run the user's path through: results uninterpreted (NOT known to be the text itself)
+    #[verifier::external_body] pub fn replace(&self, a: char, b: &str) -> (r: VString) ensures text_of(&r) == replaced(text_of(self)) { unimplemented!() }
+    #[verifier::external_body] pub fn trim(&self) -> (r: &VString) ensures text_of(r) == replaced(text_of(self)) { unimplemented!() }
+    #[verifier::external_body] pub fn to_lowercase(&self) -> (r: VString) ensures text_of(&r) == replaced(text_of(self)) { unimplemented!() }
+    #[verifier::external_body] pub fn to_string(&self) -> (r: VString) ensures text_of(&r) == text_of(self) { unimplemented!() }
+    #[verifier::external_body] pub fn to_owned(&self) -> (r: VString) ensures text_of(&r) == text_of(self) { unimplemented!() }
+    #[verifier::external_body] pub fn clone(&self) -> (r: VString) ensures text_of(&r) == text_of(self) { unimplemented!() }
+    #[verifier::external_body] pub fn as_str(&self) -> (r: &VString) ensures text_of(r) == text_of(self) { unimplemented!() }
+}
+// ---- std::fs / std::path as far as clean_command uses them (assumed std contracts, from the documentation of std) ----
+#[verifier::external_body] pub struct PathV { x: usize }
+pub uninterp spec fn path_text(p: &PathV) -> Seq<char>;      // the path as given
+#[verifier::external_body] pub struct OsName { x: usize }
+pub uninterp spec fn name_bytes(n: &OsName) -> Seq<u8>;
+#[verifier::external_body] pub struct DirEntry { x: usize }
+pub uninterp spec fn e_name(e: &DirEntry) -> Seq<u8>;         // file name of the entry (one path component)
+pub uninterp spec fn e_is_dir(e: &DirEntry) -> bool;          // the entry itself is a directory (DirEntry::file_type does not follow symlinks)
+pub uninterp spec fn e_dir(e: &DirEntry) -> Seq<char>;        // the directory the entry was listed in
+pub struct EntryPath { pub dir: Seq<char>, pub name: Seq<u8> }   // DIR/NAME: a path directly inside DIR
+#[verifier::external_body] pub struct EPath { x: usize }
+pub uninterp spec fn ep_view(p: &EPath) -> EntryPath;
+#[verifier::external_body] pub struct FileType { x: usize }
+pub uninterp spec fn ft_is_dir(t: &FileType) -> bool;
+// what read_dir(dir) yields, in order: the entries DIRECTLY inside dir (std: "not recursive"), each possibly an I/O error
+pub uninterp spec fn listing(dir: Seq<char>) -> Seq<Result<DirEntry, VErr>>;
+// the file system as far as the property talks about it: the log of removed paths, the reported count, everything else
+pub struct Fs { pub removed: Ghost<Seq<EntryPath>>, pub reported: Ghost<Option<int>>, pub other_effects: Ghost<int>, pub cleaned: Ghost<Seq<Seq<char>>>, pub outside_clean: Ghost<int> }
+#[verifier::external_body] pub fn path_new(s: &VString) -> (r: &PathV) ensures path_text(r) == text_of(s) { unimplemented!() }
+#[verifier::external_body] pub fn read_dir(p: &PathV) -> (r: Result<Vec<Result<DirEntry, VErr>>, VErr>)
+    ensures r is Ok ==> r->Ok_0@ == listing(path_text(p)) { unimplemented!() }
+#[verifier::external_body] pub fn take_item(v: &Vec<Result<DirEntry, VErr>>, k: usize) -> (r: Result<DirEntry, VErr>) requires k < v.len() ensures r == v@[k as int] { unimplemented!() }
+pub uninterp spec fn unknown_bool(e: &DirEntry, which: int) -> bool;
+pub uninterp spec fn unknown_path(p: EntryPath, which: int) -> EntryPath;
+impl DirEntry {
+    #[verifier::external_body] pub fn file_name(&self) -> (r: OsName) ensures name_bytes(&r) == e_name(self) { unimplemented!() }
+    #[verifier::external_body] pub fn file_type(&self) -> (r: Result<FileType, VErr>) ensures r is Ok ==> ft_is_dir(&r->Ok_0) == e_is_dir(self) { unimplemented!() }
+    // metadata() FOLLOWS symlinks: whether it says "directory" is not whether the entry is one
+    #[verifier::external_body] pub fn metadata(&self) -> (r: Result<FileType, VErr>) ensures r is Ok ==> ft_is_dir(&r->Ok_0) == unknown_bool(self, 1) { unimplemented!() }
+    #[verifier::external_body] pub fn path(&self) -> (r: EPath) ensures ep_view(&r) == (EntryPath { dir: e_dir(self), name: e_name(self) }) { unimplemented!() }
+}
+impl FileType {
+    #[verifier::external_body] pub fn is_dir(&self) -> (r: bool) ensures r == ft_is_dir(self) { unimplemented!() }
+    #[verifier::external_body] pub fn is_file(&self) -> (r: bool) ensures r ==> !ft_is_dir(self) { unimplemented!() }      // a symlink is neither
+    #[verifier::external_body] pub fn is_symlink(&self) -> (r: bool) ensures r ==> !ft_is_dir(self) { unimplemented!() }
+}
+impl EPath {
+    // operations a change may run the entry's path through before removing it: where they lead is NOT known to be the entry
+    #[verifier::external_body] pub fn canonicalize(&self) -> (r: Result<EPath, VErr>) ensures r is Ok ==> ep_view(&r->Ok_0) == unknown_path(ep_view(self), 1) { unimplemented!() }
+    #[verifier::external_body] pub fn with_extension(&self, e: &str) -> (r: EPath) ensures ep_view(&r) == unknown_path(ep_view(self), 2) { unimplemented!() }
+    #[verifier::external_body] pub fn is_dir(&self) -> (r: bool) { unimplemented!() }       // follows symlinks: uninterpreted
+    #[verifier::external_body] pub fn is_file(&self) -> (r: bool) { unimplemented!() }
+    #[verifier::external_body] pub fn exists(&self) -> (r: bool) { unimplemented!() }
+    #[verifier::external_body] pub fn clone(&self) -> (r: EPath) ensures ep_view(&r) == ep_view(self) { unimplemented!() }
+}
+// std::path::Path::extension for a single path component (std documentation): none for `..`, none without a dot, none when the only
+// dot is the first byte; otherwise what follows the LAST dot
+pub open spec fn last_dot(n: Seq<u8>) -> int decreases n.len() { if n.len() == 0 { -1 } else if n.last() == 46u8 { n.len() - 1 } else { last_dot(n.drop_last()) } }
+pub open spec fn ext_spec(n: Seq<u8>) -> Option<Seq<u8>> {
+    if n == seq![46u8, 46u8] { None } else if last_dot(n) <= 0 { None } else { Some(n.subrange(last_dot(n) + 1, n.len() as int)) }
+}
+#[verifier::external_body] pub struct OsStrV { x: usize }
+pub uninterp spec fn os_bytes(s: &OsStrV) -> Seq<u8>;
+#[verifier::external_body] pub fn os_path_new(n: &OsName) -> (r: &OsName) ensures name_bytes(r) == name_bytes(n) { unimplemented!() }
+impl OsName {
+    #[verifier::external_body] pub fn extension(&self) -> (r: Option<&OsStrV>)
+        ensures (r is Some) == (ext_spec(name_bytes(self)) is Some), r is Some ==> os_bytes(r->Some_0) == ext_spec(name_bytes(self))->Some_0 { unimplemented!() }
+    // other ways of cutting a name up: results uninterpreted
+    #[verifier::external_body] pub fn file_stem(&self) -> (r: Option<&OsStrV>) { unimplemented!() }
+}
+pub open spec fn lower(b: u8) -> u8 { if 65 <= b <= 90 { (b + 32) as u8 } else { b } }
+#[verifier::external_body] pub fn os_eq(s: &OsStrV, lit: &Vec<u8>) -> (r: bool) ensures r == (os_bytes(s) == lit@) { unimplemented!() }
+#[verifier::external_body] pub fn os_eq_ignore_ascii_case(s: &OsStrV, lit: &Vec<u8>) -> (r: bool)
+    ensures r == (os_bytes(s).len() == lit@.len() && forall|i: int| 0 <= i < lit@.len() ==> lower(#[trigger] os_bytes(s)[i]) == lower(lit@[i])) { unimplemented!() }
+#[verifier::external_body] pub fn remove_file(fs: &mut Fs, p: EPath) -> (r: Result<(), VErr>)
+    ensures r is Ok ==> final(fs).removed@ == old(fs).removed@.push(ep_view(&p)), r is Err ==> final(fs).removed@ == old(fs).removed@,
+            final(fs).reported@ == old(fs).reported@, final(fs).other_effects@ == old(fs).other_effects@, final(fs).cleaned@ == old(fs).cleaned@, final(fs).outside_clean@ == old(fs).outside_clean@ { unimplemented!() }
+// anything else that changes the file system (remove_dir, remove_dir_all, rename, write, set_permissions, ..): an effect the property forbids
+#[verifier::external_body] pub fn fs_other_effect(fs: &mut Fs) -> (r: Result<(), VErr>) ensures final(fs).removed@ == old(fs).removed@, final(fs).reported@ == old(fs).reported@, final(fs).cleaned@ == old(fs).cleaned@, final(fs).outside_clean@ == old(fs).outside_clean@ { unimplemented!() }
+pub fn report_removed(fs: &mut Fs, n: i32) ensures final(fs).removed@ == old(fs).removed@, final(fs).reported@ == Some(n as int), final(fs).other_effects@ == old(fs).other_effects@, final(fs).cleaned@ == old(fs).cleaned@, final(fs).outside_clean@ == old(fs).outside_clean@ { fs.reported = Ghost(Some(n as int)); }
+
+// ---- the property, from its statement ----
+pub open spec fn mmm() -> Seq<u8> { seq![109u8, 109u8, 109u8] }
+// "the files directly inside DIR whose extension is `mmm`" -- and "never ... any directory"
+pub open spec fn selected(e: Result<DirEntry, VErr>) -> bool { e is Ok && !e_is_dir(&e->Ok_0) && ext_spec(e_name(&e->Ok_0)) == Some(mmm()) }
+pub open spec fn sel_paths(s: Seq<Result<DirEntry, VErr>>) -> Seq<EntryPath> decreases s.len() {
+    if s.len() == 0 { Seq::empty() }
+    else if selected(s.last()) { sel_paths(s.drop_last()).push(EntryPath { dir: e_dir(&s.last()->Ok_0), name: e_name(&s.last()->Ok_0) }) }
+    else { sel_paths(s.drop_last()) }
+}
+// after the first n entries: exactly their selected ones are gone (each by its own path DIR/NAME), nothing else was touched
+pub open spec fn clean_state(fs0: Fs, fs1: Fs, l: Seq<Result<DirEntry, VErr>>, n: int) -> bool {
+    0 <= n <= l.len() && fs1.removed@ == fs0.removed@ + sel_paths(l.subrange(0, n)) && fs1.other_effects@ == fs0.other_effects@
+}
+pub open spec fn clean_post(fs0: Fs, fs1: Fs, l: Seq<Result<DirEntry, VErr>>, ok: bool) -> bool {
+    (exists|n: int| #[trigger] clean_state(fs0, fs1, l, n))                                           // also when it stops with an error
+    && (ok ==> clean_state(fs0, fs1, l, l.len() as int) && fs1.reported@ == Some(sel_paths(l).len() as int))   // success: all of them, and the count reported
+}
+pub proof fn lemma_sel_step(l: Seq<Result<DirEntry, VErr>>, k: int) requires 0 <= k < l.len()
+    ensures l.subrange(0, k + 1).drop_last() == l.subrange(0, k), l.subrange(0, k + 1).last() == l[k]
+{ assert(l.subrange(0, k + 1).drop_last() =~= l.subrange(0, k)); }
+pub proof fn lemma_sel_len(s: Seq<Result<DirEntry, VErr>>) ensures sel_paths(s).len() <= s.len() decreases s.len()
+{ if s.len() > 0 { lemma_sel_len(s.drop_last()); } }
+"""
+
+ARM_SPEC = r"""
+// the callee of the Clean arm: its contract is obligation C20.clean (above); here only WHICH directory it is asked to clean is logged
+#[verifier::external_body] pub fn clean_command_callee(path: &VString, fs: &mut Fs) -> (r: Result<(), VErr>)
+    ensures final(fs).cleaned@ == old(fs).cleaned@.push(text_of(path)), final(fs).outside_clean@ == old(fs).outside_clean@ { unimplemented!() }
+// a file-system effect performed by main itself, outside clean_command
+#[verifier::external_body] pub fn fs_effect_in_main(fs: &mut Fs) -> (r: Result<(), VErr>) ensures final(fs).cleaned@ == old(fs).cleaned@ { unimplemented!() }
+"""
+
+FS_EFFECTS = ("remove_dir_all", "remove_dir", "rename", "write", "set_permissions", "copy", "create_dir", "create_dir_all", "hard_link")
+
+
+def _byte_lit(lit):
+    s = lit[1:-1]
+    if "\\" in s:
+        raise Undecided(f"string literal {lit} with an escape in clean_command: not translated")
+    return list(s.encode())
+
+
+def build_v(repo):
+    import re as _re
+    src = Source(repo)
+    log = []
+    f = src.fn(MAIN, "clean_command")
+    params = text(f.get("params", [])) if isinstance(f, dict) and "params" in f else ""
+    body = list(f["body"])
+    lits = {}
+
+    def lit_fn(lit):
+        bs = _byte_lit(lit)
+        name = f"verif_lit_{len(lits)}"
+        lits.setdefault(lit, (name, bs))
+        return lits[lit][0]
+
+    # ---- output: progress lines are dropped, the count line is the report the statement talks about
+    out, i, counter, nrep = [], 0, None, 0
+    while i < len(body):
+        if body[i] == "println" and i + 2 < len(body) and body[i + 1] == "!" and body[i + 2] == "(":
+            c = match_close(body, i + 2)
+            args = body[i + 3:c]
+            end = c + 1 + (1 if c + 1 < len(body) and body[c + 1] == ";" else 0)
+            fmt = args[0] if args else ""
+            rest = " ".join(args[1:])
+            if any(w in rest for w in ("remove", "fs ::", "write", "rename")):
+                raise Undecided("clean_command: a println! argument has file-system calls: not dropped")
+            m = _re.fullmatch(r'"Removed \{(\w*)\} files?"', fmt)
+            if m:
+                name = m.group(1) or (args[2] if len(args) == 3 and args[1] == "," else None)
+                if not name or not _re.fullmatch(r"\w+", name):
+                    raise Undecided("clean_command: the count line prints something that is not a variable")
+                counter = name; nrep += 1
+                new = ["report_removed", "(", "fs", ",", name, ")", ";"]
+                log.append(("R3", text(body[i:end])[:160], text(new), "the count line is the report (\"reports how many it removed\"): kept as an effect"))
+                out.extend(new)
+            elif "Removed" in fmt or "removed" in fmt.lower():
+                raise Undecided(f"clean_command: count line {fmt} not in a form the translation reads")
+            else:
+                log.append(("R3", text(body[i:end])[:160], "", "progress output dropped"))
+            i = end
+            continue
+        out.append(body[i]); i += 1
+    body = out
+    if nrep != 1 or counter is None:
+        raise Undecided("clean_command: exactly one `Removed {n} files` line expected")
+    rules = [
+        Rule("R9", "let path = Path :: new ( path ) ;", "let path = path_new ( path ) ;", why="Path::new on the &str argument: the path as given"),
+        Rule("R9", "Path :: new ( & $$e )", "os_path_new ( & $$e )", why="Path::new on an entry's file name: one path component"),
+        Rule("R9", "std :: fs :: read_dir ( $$a )", "read_dir ( $$a )", why="std::fs::read_dir: the entries directly inside the directory, in order (assumed std contract); ReadDir -> Vec"),
+        Rule("R9", "std :: fs :: remove_file ( & $$a )", "remove_file ( fs , ( $$a ) . clone ( ) )", why="std::fs::remove_file: removes exactly that path (assumed std contract); explicit file-system state"),
+        Rule("R9", "std :: fs :: remove_file ( $$a )", "remove_file ( fs , $$a )", why="std::fs::remove_file: removes exactly that path (assumed std contract); explicit file-system state"),
+    ]
+    for eff in FS_EFFECTS:
+        rules.append(Rule("R9", f"std :: fs :: {eff} ( $$a )", "fs_other_effect ( fs )", why=f"std::fs::{eff}: a file-system effect other than removing a file"))
+    rules += [
+        Rule("R9", "$v . eq_ignore_ascii_case ( $l )", lambda b: f'os_eq_ignore_ascii_case ( {text(b["v"])} , & {lit_fn(text(b["l"]))} ( ) )' if text(b["l"]).startswith('"') else None, why="OsStr::eq_ignore_ascii_case (std contract)"),
+    ]
+    body = translate(body, rules, log, "clean_command")
+    # `x == "lit"` / `x != "lit"` on an OsStr (after the Option idioms made `ext` a bound name)
+    body = Rule("R9", "$v == $l", lambda b: f'os_eq ( {text(b["v"])} , & {lit_fn(text(b["l"]))} ( ) )' if text(b["l"]).startswith('"') and len(b["l"]) == 1 else None, why="OsStr == str: byte-wise (std contract)").apply(body, log)
+    body = Rule("R9", "$v != $l", lambda b: f'! os_eq ( {text(b["v"])} , & {lit_fn(text(b["l"]))} ( ) )' if text(b["l"]).startswith('"') and len(b["l"]) == 1 else None, why="OsStr != str: byte-wise (std contract)").apply(body, log)
+    # ---- the loop
+    n = [0]
+
+    def loop(b):
+        n[0] += 1
+        v, x = text(b["v"]), text(b["x"])
+        k = "verif_k"
+        inv = (f"invariant {k} <= {v}.len(), {v}@ == verif_l, verif_l.len() < 0x7fff_ffff, clean_state(verif_fs0, *fs, verif_l, {k} as int), "
+               f"{counter} == sel_paths(verif_l.subrange(0, {k} as int)).len(), fs.reported@ == verif_fs0.reported@, fs.cleaned@ == verif_fs0.cleaned@ decreases {v}.len() - {k}")
+        pre = f"proof {{ lemma_sel_step(verif_l, {k} as int - 1); lemma_sel_len(verif_l.subrange(0, {k} as int - 1)); assert(clean_state(verif_fs0, *fs, verif_l, {k} as int - 1)); }}"
+        post = (f"proof {{ assert(fs.removed@ =~= verif_fs0.removed@ + sel_paths(verif_l.subrange(0, {k} as int))); assert(clean_state(verif_fs0, *fs, verif_l, {k} as int)); }}")
+        if "continue" in b["body"]:
+            raise Undecided("clean_command: `continue` in the loop body: the spliced end-of-iteration proof would be skipped")
+        return [f"let mut {k} : usize = 0 ; while {k} < {v} . len ( )", G(inv), "{", f"let {x} = take_item ( & {v} , {k} ) ; {k} += 1 ;", G(pre), *b["body"], G(post), "}"]
+
+    body = Rule("R2", "for $x in $v { $$body }", loop, why="for over ReadDir -> indexed while over the listing (iteration order of the iterator)").apply(body, log)
+    if n[0] != 1:
+        raise Undecided(f"clean_command: exactly one loop over the listing expected, found {n[0]}")
+    if body[-5:] != ["Ok", "(", "(", ")", ")"]:
+        raise Undecided("clean_command: final `Ok(())` not found")
+    body = body[:-5] + [G("proof { assert(verif_l.subrange(0, verif_l.len() as int) =~= verif_l); }")] + body[-5:]
+    check_closed(body, "clean_command")
+    top = G("let ghost verif_fs0 = *fs; let ghost verif_l = listing(text_of(path));\n"
+            "    proof { assert(verif_l.subrange(0, 0) =~= Seq::empty()); assert(fs.removed@ + sel_paths(verif_l.subrange(0, 0)) =~= fs.removed@); assert(clean_state(verif_fs0, *fs, verif_l, 0)); }")
+    # ---- the Clean arm of main: the directory cleaned is the one the user named
+    try:
+        fm = src.fn(MAIN, "main")
+        arm = extract_match_arm(fm["body"], "Commands :: Clean { path }")
+    except Exception as e:
+        raise Undecided(f"main: arm `Commands::Clean {{ path }}` not found: {e}")
+    arm_rules = [Rule("R6", "clean_command ( $$a )", "clean_command_callee ( $$a , fs )", why="the callee under its own contract (C20.clean); which directory it is given is logged")]
+    for eff in FS_EFFECTS + ("remove_file",):
+        arm_rules.append(Rule("R9", f"std :: fs :: {eff} ( $$a )", "fs_effect_in_main ( fs )", why=f"std::fs::{eff} in main: a file-system effect outside clean_command"))
+    ab = translate(list(arm["body"]), arm_rules, log, "main: Clean arm")
+    check_closed(ab, "main: Clean arm")
+    if ab and ab[0] == "{" and match_close(ab, 0) == len(ab) - 1:
+        ab = ab[1:-1]
+    # clap: the argument must reach the arm as typed
+    cli_t = " ".join(src.toks("src/cli.rs"))
+    m = _re.search(r"Clean \{ (.*?) path : (\w+) ,? \}", cli_t)
+    if not m or m.group(2) != "String":
+        raise Undecided("cli.rs: the `path` argument of `clean` is no longer a plain String")
+    cli_ok = "value_parser" not in m.group(1) and "value_delimiter" not in m.group(1)
+    litfns = "\n".join(f"pub fn {nm}() -> (r: Vec<u8>) ensures r@ == seq![{', '.join(str(x) + 'u8' for x in bs)}] {{ let mut v = Vec::new(); " + " ".join(f"v.push({x}u8);" for x in bs) + " v }" for nm, bs in lits.values())
+    gen = header(log, f"{MAIN}: clean_command; the `Commands::Clean` arm of main") + SPEC_V + litfns + f"""
+//@ OBL C20.clean
+#[verifier::loop_isolation(false)]
+pub fn clean_command(path: &VString, fs: &mut Fs) -> (r: Result<(), VErr>)
+    requires listing(text_of(path)).len() < 0x7fff_ffff,
+    ensures clean_post(*old(fs), *final(fs), listing(text_of(path)), r is Ok), final(fs).cleaned@ == old(fs).cleaned@,
+{{
+    {top[1:]}
+{render(body, 1)}
+}}
+{ARM_SPEC}
+//@ OBL C20.main.dir
+pub fn main_clean_arm(path: VString, fs: &mut Fs) -> (r: Result<(), VErr>)
+    ensures r is Ok ==> final(fs).cleaned@ == old(fs).cleaned@.push(text_of(&path)),      // exactly one directory: the one named
+            final(fs).outside_clean@ == old(fs).outside_clean@,   // and no file-system effect outside clean_command
+{{
+{render(ab, 1)}
+    Ok(())
+}}
+//@ OBL C20.cli.as-typed
+proof fn cli_path_as_typed() {{ assert({'true' if cli_ok else 'false'}); }}   // clap hands `path` over as typed: no value_parser / value_delimiter on the argument (read from src/cli.rs)
+}} // verus!
+fn main() {{}}
+"""
+    obls = [Obl("C20.clean", ["C20"], fn="clean_command", desc="clean_command, every listing and every name: on success exactly the non-directory entries directly inside DIR whose extension is `mmm` were removed, each by its own path DIR/NAME, in listing order, and their number reported; when it stops with an error, a prefix of them; no other file-system effect"),
+            Obl("C20.main.dir", ["C20"], fn="main_clean_arm", desc="the Clean arm of main cleans exactly one directory: the path the user named, unchanged"),
+            Obl("C20.cli.as-typed", ["C20"], fn="cli_path_as_typed", desc="src/cli.rs: the path argument of `clean` is a plain String without a value parser")]
+    return gen, obls, log
+
+
+UNITS.append(VUnit("c20_clean_v", ["C20"], "clean_command under contract for every listing and name (std::fs / std::path contracts assumed)", build_v))
+UNITS[-1].assumes = [
+    "std::fs::read_dir yields the entries directly inside DIR (not recursive); DirEntry::file_type does not follow symlinks; DirEntry::path is DIR/NAME; std::fs::remove_file removes exactly the path given and nothing on failure (documentation of std)",
+    "Path::extension on one path component = what follows the last dot, none when there is no dot, the only dot is the first byte, or the name is `..` (documentation of std; cross-checked against the real std for bounded names by the Kani harness of unit c20_clean)",
+    "fewer than 2^31 entries in DIR (the counter is an i32)",
+    "progress output (println!) dropped; the `Removed {n} files` line is modelled as the report",
+    "concurrent modification of DIR during the run, permissions and I/O races are outside the contract",
+]
